@@ -400,6 +400,117 @@ def compress(rng, data, kind):
     return b"".join(one(p, rng.choice(["gz", "bz2", "xz"]) if mixed else kind) for p in parts)
 
 
+# ---- concatenated members whose compressed sizes are chosen: the boundary between two members is put at every offset
+# -7..+7 around the edges of ReadCompressed's 16384-byte input buffers (which start after the 6 magic bytes), so that the
+# next member's magic is assembled from 0..7 left-over bytes plus freshly read ones, or lies wholly in the old / new buffer
+KIN = 16384
+
+
+def noisy_lines(rng, n, tag=b"m"):
+    """exactly n bytes of newline-terminated lines that do not compress to nothing"""
+    out = bytearray()
+    while len(out) < n:
+        out += tag + b" " + b" ".join(b"%x" % rng.below(1 << 31) for _ in range(rng.range(1, 8))) + rng.choice([b"\n", b"\n", b" -1.5\n", b"\r\n"])
+    out = out[:n]
+    if n:
+        out[n - 1:n] = b"\n"
+    return bytes(out)
+
+
+def compress_one(data, kind, level):
+    if kind == "gz":
+        return gzip.compress(data, level, mtime=0)
+    if kind == "bz2":
+        return bz2.compress(data, max(1, level))
+    return lzma.compress(data, format=lzma.FORMAT_XZ, preset=min(level, 6))
+
+
+def sized_member(rng, kind, target, level=None):
+    """(plain, compressed) with len(compressed) == target, or None when the search gives up (xz sizes are multiples of 4)"""
+    if kind == "xz" and target % 4:
+        return None
+    if level is None:
+        level = rng.choice([0, 0, 1, 6, 9]) if kind == "gz" else rng.choice([1, 9]) if kind == "bz2" else rng.choice([0, 1, 6])
+    if kind == "gz" and level == 0:
+        n = max(1, target - 40)                     # stored blocks: one compressed byte per input byte
+        for _ in range(60):
+            t = noisy_lines(rng.fork(), n)
+            d = target - len(compress_one(t, kind, 0))
+            if d == 0:
+                return t, compress_one(t, kind, 0)
+            n = max(1, n + d)
+        return None
+    base = noisy_lines(rng.fork(), 4 * target + 4096)
+    n = 2 * target
+    gran = 4 if kind == "xz" else 48 if kind == "bz2" else 3
+    for _ in range(40):                             # coarse: walk the length until the size is close
+        d = target - len(compress_one(base[:n - 1] + b"\n", kind, level))
+        if abs(d) <= gran:
+            break
+        n = min(len(base), max(64, n + d * 2))
+    for delta in range(0, 400):                     # fine: scan neighbouring lengths for an exact hit
+        for m in (n + delta, n - delta):
+            if 64 <= m <= len(base):
+                c = compress_one(base[:m - 1] + b"\n", kind, level)
+                if len(c) == target:
+                    return base[:m - 1] + b"\n", c
+    return None
+
+
+def gen_boundary_streams(rng, n_gz, n_other):
+    """lists of (plain, compressed) members; every boundary offset d in -7..7 is used for gzip in each run"""
+    streams = []
+    plan = [("gz", d) for d in range(-7, 8)][:n_gz] + [(rng.choice(["bz2", "xz"]), rng.choice(range(-7, 8))) for _ in range(n_other)]
+    for kind, d in plan:
+        m = rng.choice([1, 1, 2])
+        target = 6 + KIN * m + d
+        if kind == "xz":
+            target -= target % 4
+        first = sized_member(rng, kind, target)
+        if first is None:
+            continue
+        members = [first]
+        shape = rng.below(5)
+        if shape == 1:                              # an empty member right at the boundary
+            members.append((b"", compress_one(b"", rng.choice(["gz", "bz2", "xz"]), 6)))
+        if shape == 2:                              # a second controlled boundary (grid restarts after a short left-over)
+            k2 = rng.choice(["gz", kind])
+            second = sized_member(rng, k2, 6 + KIN + rng.choice(range(-7, 8)) - (0 if k2 != "xz" else (6 + KIN) % 4), 0 if k2 == "gz" else None)
+            if second:
+                members.append(second)
+        for _ in range(rng.range(1, 2 if shape != 3 else 3)):
+            k = rng.choice(["gz", "bz2", "xz", kind, kind])
+            p = noisy_lines(rng.fork(), rng.choice([0, 1, 200, 5000, 20000]), b"tail")
+            members.append((p, compress_one(p, k, rng.choice([1, 6]))))
+        streams.append(members)
+    return streams
+
+
+def gen_boundary_cases(rng, n_gz, n_other):
+    """FP cases (compressed file / compressed pipe with dictated read lengths) and RC cases over the controlled streams"""
+    fp, rc = [], []
+    for members in gen_boundary_streams(rng, n_gz, n_other):
+        plain = b"".join(p for p, _ in members)
+        comp = b"".join(c for _, c in members)
+        nl = plain.count(b"\n")
+        ops = "".join(rng.choice("LLLLLLED") for _ in range(nl + 2)) + "LGP"
+        backend = rng.choice(["ZM", "ZR", "ZR"])
+        chunks = [rng.choice([1, 5, 6, 7, KIN - 1, KIN, KIN + 1, rng.range(1, 3 * KIN)]) for _ in range(80)] if backend == "ZR" and rng.chance(2, 3) else []
+        fp.append("FP %s %x %s %s %s %s" % (backend, rng.choice([1, 4096, 1 << 20]), hexs(plain), hexs(comp), ",".join("%x" % c for c in chunks) or "-", ops))
+        src = rng.choice("FR")
+        rchunks = [rng.choice([1, 2, 5, 6, 7, KIN - 1, KIN, KIN + 1]) for _ in range(60)] if src == "R" and rng.chance(1, 2) else []
+        reqs = [rng.choice([1, 3, 100, 4096, KIN, 65536, rng.range(1, 70000)]) for _ in range(rng.range(1, 8))]
+        if sum(reqs) < 512 * len(reqs):
+            reqs.append(rng.choice([4096, KIN, 65536]))       # keep the number of calls (and the model's run time) bounded
+        h = 7
+        for x in plain:
+            h = (h * 257 + x + 1) % 2147483647
+        rc.append(("RC %s %s %s %s %s %s" % (src, hexs(comp), ",".join("%x" % c for c in rchunks) or "-", ",".join("%x" % c for c in reqs),
+                                            ",".join(p.hex() or "-" for p, _ in members), ",".join("%x" % len(c) for _, c in members)),
+                   "%x %x 0" % (len(plain), h)))
+    return fp, rc
+
+
 MINBUFS = [1, 4095, 4096, 4097, 1 << 20]
 
 
@@ -531,6 +642,8 @@ def signature_of(case, k, msg, spec_tok, impl_tok):
     s, so = spec_tok.rsplit("@", 1)
     i, io = impl_tok.rsplit("@", 1) if "@" in impl_tok else (impl_tok, "?")
     mode = "mmap" if backend == "M" else "mmap-fails" if backend in ("MF", "PF") else "read"
+    if i.startswith("EXC:") or i.startswith("CTOR-EXC:"):
+        return "%s:exception" % ("compressed" if backend[0] == "Z" else mode)
     if s == "NAN" or is_nan_tok(i):
         return "number:nan"
     if s == i or s == "END":
@@ -569,6 +682,15 @@ def run(ctx):
             for ops in ("L" * (content.count(b"\n") + 2) + "G", "DW" * (len(content.split()) + 1) + "LG"):
                 fp_cases.append("FP PF %x %s - - %s %s" % (rng.choice([1, 4096, 1 << 20]), hexs(content), ops, name))
     rc = gen_rc_cases(rng, ctx.pick(40, 400), big)
+    bfp, brc = gen_boundary_cases(rng, 15, ctx.pick(4, 30))
+    if big:
+        for _ in range(4):
+            f2, r2 = gen_boundary_cases(rng, 15, 0)
+            bfp += f2
+            brc += r2
+    fp_cases += bfp
+    rc += brc
+    ctx.coverage["member_boundary_streams"] = len(bfp)
     lap("generate")
     impl = vlib.compile_driver("c18_driver", DRIVER_SRC, libs=("kenlm_util",))
     lap("build")
